@@ -447,6 +447,8 @@ def clip(s, n):
 
 
 _CONFIRMED_HANGS = 0
+import threading as _threading
+_LOCK = _threading.Lock()
 
 
 def observe(binary, argv, cwd, keys, out="out", limit=30.0, long_limit=600.0, env=None):
@@ -457,9 +459,15 @@ def observe(binary, argv, cwd, keys, out="out", limit=30.0, long_limit=600.0, en
     # once a few runs have been confirmed as hangs with the long limit (a tree that hangs on a whole class of inputs),
     # later slow runs get a shorter second limit, so that the check still ends with a verdict
     global _CONFIRMED_HANGS
-    if _CONFIRMED_HANGS >= 3:
-        long_limit = min(long_limit, 3 * limit)
-    for lim in (limit, long_limit):
+    for attempt in (0, 1):
+        lim = limit
+        if attempt == 1:
+            # second try of a run that exceeded `limit`: the first three such runs of this process get the long
+            # limit (a loaded machine must not turn a slow crash into a hang), later ones a short one, so that a
+            # tree that hangs on a whole class of inputs still gets its verdict in time
+            with _LOCK:
+                _CONFIRMED_HANGS += 1
+                lim = long_limit if _CONFIRMED_HANGS <= 3 else 2 * limit
         if os.path.isdir(out_dir):
             import shutil
             shutil.rmtree(out_dir)
@@ -474,8 +482,6 @@ def observe(binary, argv, cwd, keys, out="out", limit=30.0, long_limit=600.0, en
             res = (None, (ex.stdout or b"").decode("utf-8", "replace"), (ex.stderr or b"").decode("utf-8", "replace"),
                    time.time() - t0)
     rc, so, se, wall = res
-    if rc is None:
-        _CONFIRMED_HANGS += 1
     text = so + "\n" + se
     if "files" in keys:            # a program JSON instead of the key table
         keys = go_file_keys(keys)
